@@ -41,34 +41,34 @@ macro_rules! v_core {
         let desc = || format!("{} view of {:?}", enc.name, abs);
         let r = $crate::guard::guarded(|| -> Result<(), (String, String, String)> {
             let e = |c: &str, s: &str, d: String| Err((c.to_string(), s.to_string(), d));
-            if g.is_directed() != abs.directed {
+            if petgraph::visit::GraphProp::is_directed(&g) != abs.directed {
                 return e("GraphProp::is_directed", "wrong for this view", String::new());
             }
-            let ids: Vec<usize> = g.node_identifiers().map(|x| enc.abs(x)).collect();
+            let ids: Vec<usize> = petgraph::visit::IntoNodeIdentifiers::node_identifiers(g).map(|x| enc.abs(x)).collect();
             if ms(ids.clone()) != (0..n).collect::<Vec<_>>() {
                 return e("IntoNodeIdentifiers::node_identifiers", "does not yield each live node exactly once", format!("got {:?} (abstract indices; usize::MAX = not a node of the view)", ids));
             }
-            let refs: Vec<usize> = g.node_references().map(|r| enc.abs(r.id())).collect();
+            let refs: Vec<usize> = petgraph::visit::IntoNodeReferences::node_references(g).map(|r| enc.abs(r.id())).collect();
             if refs != ids {
                 return e("IntoNodeReferences::node_references", "ids differ from node_identifiers", format!("got {:?} vs {:?}", refs, ids));
             }
-            let bound = g.node_bound();
+            let bound = petgraph::visit::NodeIndexable::node_bound(&g);
             for a in 0..n {
-                let ix = g.to_index(enc.id(a));
+                let ix = petgraph::visit::NodeIndexable::to_index(&g, enc.id(a));
                 if ix >= bound {
                     return e("NodeIndexable::to_index", "not below node_bound", format!("node {} index {} bound {}", a, ix, bound));
                 }
-                if g.from_index(ix) != enc.id(a) {
+                if petgraph::visit::NodeIndexable::from_index(&g, ix) != enc.id(a) {
                     return e("NodeIndexable::from_index", "is not the inverse of to_index", format!("node {} index {}", a, ix));
                 }
             }
             // edge_references: each edge once
-            let er: Vec<(usize, usize, u8)> = g.edge_references().map(|r| (enc.abs(r.source()), enc.abs(r.target()), *r.weight())).collect();
+            let er: Vec<(usize, usize, u8)> = petgraph::visit::IntoEdgeReferences::edge_references(g).map(|r| (enc.abs(r.source()), enc.abs(r.target()), *r.weight())).collect();
             let canon = |v: &Vec<(usize, usize, u8)>| -> Vec<(usize, usize, u8)> { ms(v.iter().map(|&(a, b, w)| if abs.directed || a <= b { (a, b, w) } else { (b, a, w) }).collect()) };
             if canon(&er) != canon(&abs.edges) {
                 return e("IntoEdgeReferences::edge_references", "does not yield each edge of the view exactly once", format!("got {:?} want {:?}", er, abs.edges));
             }
-            let eids: Vec<_> = g.edge_references().map(|r| r.id()).collect();
+            let eids: Vec<_> = petgraph::visit::IntoEdgeReferences::edge_references(g).map(|r| r.id()).collect();
             for i in 0..eids.len() {
                 for j in 0..i {
                     if eids[i] == eids[j] {
@@ -78,8 +78,8 @@ macro_rules! v_core {
             }
             for a in 0..n {
                 let want = abs_adj(abs, a, true);
-                let nb: Vec<usize> = g.neighbors(enc.id(a)).map(|x| enc.abs(x)).collect();
-                let ed: Vec<(usize, usize, u8)> = g.edges(enc.id(a)).map(|r| (enc.abs(r.source()), enc.abs(r.target()), *r.weight())).collect();
+                let nb: Vec<usize> = petgraph::visit::IntoNeighbors::neighbors(g, enc.id(a)).map(|x| enc.abs(x)).collect();
+                let ed: Vec<(usize, usize, u8)> = petgraph::visit::IntoEdges::edges(g, enc.id(a)).map(|r| (enc.abs(r.source()), enc.abs(r.target()), *r.weight())).collect();
                 if lenient {
                     // UndirectedAdaptor promises the neighbour set and incident edges only (self-loop may repeat, orientation unconstrained)
                     let mut s1: Vec<usize> = nb.clone();
@@ -110,13 +110,13 @@ macro_rules! v_core {
                 }
             }
             // Visitable: the map accepts every live id
-            let mut vm = g.visit_map();
+            let mut vm = petgraph::visit::Visitable::visit_map(&g);
             for a in 0..n {
                 if vm.is_visited(&enc.id(a)) || !vm.visit(enc.id(a)) || !vm.is_visited(&enc.id(a)) || vm.visit(enc.id(a)) {
                     return e("Visitable::visit_map", "visit / is_visited inconsistent for a live node", format!("node {}", a));
                 }
             }
-            g.reset_map(&mut vm);
+            petgraph::visit::Visitable::reset_map(&g, &mut vm);
             if (0..n).any(|a| vm.is_visited(&enc.id(a))) {
                 return e("Visitable::reset_map", "leaves a node visited", String::new());
             }
@@ -165,11 +165,11 @@ macro_rules! v_directed {
             for a in 0..abs.n {
                 for (dir, out) in [(Outgoing, true), (Incoming, false)] {
                     let want = abs_adj(abs, a, out);
-                    let nb: Vec<usize> = g.neighbors_directed(enc.id(a), dir).map(|x| enc.abs(x)).collect();
+                    let nb: Vec<usize> = petgraph::visit::IntoNeighborsDirected::neighbors_directed(g, enc.id(a), dir).map(|x| enc.abs(x)).collect();
                     if ms(nb.clone()) != want.iter().map(|x| x.0).collect::<Vec<_>>() {
                         return Err(("IntoNeighborsDirected::neighbors_directed".into(), "differs from the view's edges in that direction".into(), format!("node {} {:?} got {:?} want {:?}", a, dir, nb, want)));
                     }
-                    let ed: Vec<(usize, usize, u8)> = g.edges_directed(enc.id(a), dir).map(|r| (enc.abs(r.source()), enc.abs(r.target()), *r.weight())).collect();
+                    let ed: Vec<(usize, usize, u8)> = petgraph::visit::IntoEdgesDirected::edges_directed(g, enc.id(a), dir).map(|r| (enc.abs(r.source()), enc.abs(r.target()), *r.weight())).collect();
                     let want_ed: Vec<(usize, usize, u8)> = want.iter().map(|&(o, w)| if out { (a, o, w) } else { (o, a, w) }).collect();
                     if ms(ed.clone()) != ms(want_ed.clone()) {
                         return Err(("IntoEdgesDirected::edges_directed".into(), "is not the matching subset of edge_references (queried node is the source for Outgoing, the target for Incoming)".into(), format!("node {} {:?} got {:?} want {:?}", a, dir, ed, want_ed)));
@@ -200,7 +200,7 @@ macro_rules! v_neighbors_directed {
         for a in 0..abs.n {
             for (dir, out) in [(Outgoing, true), (Incoming, false)] {
                 let want = abs_adj(abs, a, out);
-                match $crate::guard::guarded(|| g.neighbors_directed(enc.id(a), dir).map(|x| enc.abs(x)).collect::<Vec<usize>>()) {
+                match $crate::guard::guarded(|| petgraph::visit::IntoNeighborsDirected::neighbors_directed(g, enc.id(a), dir).map(|x| enc.abs(x)).collect::<Vec<usize>>()) {
                     Ok(nb) => {
                         if ms(nb.clone()) != want.iter().map(|x| x.0).collect::<Vec<_>>() {
                             $ctx.viol("IntoNeighborsDirected::neighbors_directed", "differs from the view's edges in that direction", format!("{} view of {:?} node {} {:?} got {:?} want {:?}", enc.name, abs, a, dir, nb, want));
@@ -223,11 +223,11 @@ macro_rules! v_adjacency {
         let g = &enc.g;
         let desc = || format!("{} view of {:?}", enc.name, abs);
         let r = $crate::guard::guarded(|| -> Result<(), String> {
-            let m = g.adjacency_matrix();
+            let m = petgraph::visit::GetAdjacencyMatrix::adjacency_matrix(&g);
             for a in 0..abs.n {
                 for b in 0..abs.n {
                     let want = abs.edges.iter().any(|e| (e.0, e.1) == (a, b) || (!abs.directed && (e.1, e.0) == (a, b)));
-                    if g.is_adjacent(&m, enc.id(a), enc.id(b)) != want {
+                    if petgraph::visit::GetAdjacencyMatrix::is_adjacent(&g, &m, enc.id(a), enc.id(b)) != want {
                         return Err(format!("is_adjacent({}, {}) = {} but the edge {} exist", a, b, !want, if want { "does" } else { "does not" }));
                     }
                 }
@@ -252,9 +252,9 @@ macro_rules! v_edge_indexable {
         let g = &enc.g;
         let desc = || format!("{} view of {:?}", enc.name, $abs);
         let r = $crate::guard::guarded(|| -> Result<(), String> {
-            let bound = g.edge_bound();
+            let bound = petgraph::visit::EdgeIndexable::edge_bound(&g);
             let mut seen = vec![];
-            for r in g.edge_references() {
+            for r in petgraph::visit::IntoEdgeReferences::edge_references(g) {
                 let ix = EdgeIndexable::to_index(g, r.id());
                 if ix >= bound {
                     return Err(format!("to_index {} not below edge_bound {}", ix, bound));
@@ -287,10 +287,10 @@ macro_rules! v_compact {
         let enc = $enc;
         is_compact(&&enc.g);
         let g = &enc.g;
-        let mut ix: Vec<usize> = (0..$abs.n).map(|a| g.to_index(enc.id(a))).collect();
+        let mut ix: Vec<usize> = (0..$abs.n).map(|a| petgraph::visit::NodeIndexable::to_index(&g, enc.id(a))).collect();
         ix.sort();
-        if ix != (0..g.node_bound()).collect::<Vec<_>>() {
-            $ctx.viol("NodeCompactIndexable", "node indices are not exactly 0..node_bound", format!("{} view of {:?}: indices {:?} bound {}", enc.name, $abs, ix, g.node_bound()));
+        if ix != (0..petgraph::visit::NodeIndexable::node_bound(&g)).collect::<Vec<_>>() {
+            $ctx.viol("NodeCompactIndexable", "node indices are not exactly 0..node_bound", format!("{} view of {:?}: indices {:?} bound {}", enc.name, $abs, ix, petgraph::visit::NodeIndexable::node_bound(&g)));
         }
     }};
 }
